@@ -110,7 +110,7 @@ func TestC19_Selector(t *testing.T) {
 		c := &c19cluster{named: rapid.Bool().Draw(t, "named"), labels: map[int]map[string]string{}}
 		n := rapid.IntRange(1, 12).Draw(t, "nServers")
 		for i := 0; i < n; i++ {
-			c.labels[i] = drawLabels(t, false, i)
+			c.labels[i] = drawLabels(t)
 			c.servers = append(c.servers, i)
 		}
 		pol := drawPolicy(t)
@@ -284,10 +284,10 @@ func (s *stubStatus) Load() *model.ClusterStatus {
 	return <-reply
 }
 func (s *stubStatus) LoadWithVersion() (*model.ClusterStatus, metadata.Version) { return s.Load(), "0" }
-func (*stubStatus) Swap(*model.ClusterStatus, metadata.Version) bool               { return true }
-func (*stubStatus) Update(*model.ClusterStatus)                                    {}
-func (*stubStatus) UpdateShardMetadata(string, int64, model.ShardMetadata)         {}
-func (*stubStatus) DeleteShardMetadata(string, int64)                              {}
+func (*stubStatus) Swap(*model.ClusterStatus, metadata.Version) bool            { return true }
+func (*stubStatus) Update(*model.ClusterStatus)                                 {}
+func (*stubStatus) UpdateShardMetadata(string, int64, model.ShardMetadata)      {}
+func (*stubStatus) DeleteShardMetadata(string, int64)                           {}
 
 type balEnv struct {
 	lb      balancer.LoadBalancer
@@ -373,7 +373,15 @@ func (e *balEnv) close(last *model.ClusterStatus) {
 			}
 		}
 	}()
-	_ = e.lb.Close()
+	closed := make(chan struct{})
+	go func() {
+		_ = e.lb.Close()
+		close(closed)
+	}()
+	select {
+	case <-closed:
+	case <-time.After(5 * time.Second): // only after a watchdog failure: the round goroutine is abandoned
+	}
 	close(done)
 }
 
@@ -411,7 +419,7 @@ func TestC19_Balancer(t *testing.T) {
 		c := &c19cluster{named: rapid.Bool().Draw(t, "named"), labels: map[int]map[string]string{}}
 		n := rapid.IntRange(2, 10).Draw(t, "nServers")
 		for i := 0; i < n; i++ {
-			c.labels[i] = drawLabels(t, false, i)
+			c.labels[i] = drawLabels(t)
 			c.servers = append(c.servers, i)
 		}
 		hist := []string{"servers=" + c.fmtServers()}
@@ -437,6 +445,35 @@ func TestC19_Balancer(t *testing.T) {
 			mode := rapid.SampledFrom([]string{"selector", "random"}).Draw(t, "placement")
 			if mode == "selector" {
 				st, _, _ = utils.ApplyClusterChanges(subCfg, st, realSupplier(subCfg, selector, nil))
+				// shards the coordinator just created: rf distinct servers of that config, anti-affinity kept
+				inSub := map[string]bool{}
+				for _, s := range subCfg.Servers {
+					inSub[sid(s)] = true
+				}
+				created := st.Namespaces[spec.name]
+				for _, id := range sortedShardIDs(created.Shards) {
+					members := idsOf(created.Shards[id].Ensemble)
+					bad := ""
+					switch {
+					case len(members) != int(spec.rf):
+						bad = fmt.Sprintf("has %d members, want rf=%d", len(members), spec.rf)
+					case duplicateIn(members) != "":
+						bad = "contains " + short(duplicateIn(members)) + " twice"
+					default:
+						for _, m := range members {
+							if !inSub[m] {
+								bad = short(m) + " is not a server of the config"
+							}
+						}
+						if bad == "" {
+							bad = aaViolation(spec.pol, subCfg.ServerMetadata, members)
+						}
+					}
+					if bad != "" {
+						t.Fatalf("C19: shard %d created for namespace %s:%d/rf%d/%s over servers %s got ensemble %s: %s; history=%v",
+							id, spec.name, spec.shards, spec.rf, fmtPolicy(spec.pol), sub.fmtServers(), fmtIDs(members), bad, hist)
+					}
+				}
 			} else {
 				nsStatus := model.NamespaceStatus{ReplicationFactor: spec.rf, Shards: map[int64]model.ShardMetadata{}}
 				for _, sh := range sharding.GenerateShards(st.ShardIdGenerator, spec.shards) {
@@ -498,7 +535,7 @@ func TestC19_Balancer(t *testing.T) {
 			}
 			if kind >= 3 { // add empty servers
 				for k := rapid.IntRange(1, 3).Draw(t, "nAdd"); k > 0 && next < pool; k-- {
-					c.labels[next] = drawLabels(t, false, next)
+					c.labels[next] = drawLabels(t)
 					c.servers = append(c.servers, next)
 					edit = append(edit, fmt.Sprintf("+s%d%s", next, fmtLabels(c.labels[next])))
 					next++
@@ -602,11 +639,13 @@ func evalRound(env *balEnv, cfg *model.ClusterConfig, st *model.ClusterStatus, p
 		}
 		perShard[a.Shard]++
 		if perShard[a.Shard] >= 2 {
-			o.multiAction = true
 			if evid.Known(kfStaleSnapshot) {
+				// listed as open: the second proposal for a shard is not checked, the case ends after this round
 				evid.Excluded("C19", kfStaleSnapshot)
 				tainted[a.Shard] = true
 				o.stop = true
+			} else {
+				o.multiAction = true
 			}
 		}
 		if tainted[a.Shard] {
